@@ -20,7 +20,7 @@ for p in props:
     checks.append({
         "property_id": pid,
         "quick_cmd": cmd % (getattr(m, "QUICK_TIMEOUT", 600), pid, "quick"),
-        "thorough_cmd": cmd % (getattr(m, "THOROUGH_TIMEOUT", 3600), pid, "thorough"),
+        "thorough_cmd": cmd % (getattr(m, "THOROUGH_TIMEOUT", 2400), pid, "thorough"),
         "evidence_file": "/verif/evidence/%s.json" % pid,
         "replay_cmd_template": "/venv/bin/python run_check.py %s --replay {path}" % pid,
         "engine": getattr(m, "ENGINE", "sim-step"),
